@@ -583,7 +583,7 @@ CHECKS = {
               sig=lambda o: f"wiring:{o['c']['opts']}:{o['c']['kind']}:{o['c']['by']}:{o['c']['router']}", need=lambda o: [f"{o['c']['kind']}:{o['o']['v']}"],
               required=["at:accept", "at:reject", "hint:accept", "hint:reject"]),
          dict(module="KeyRotation", sub="tbl-keyrotation", prefixes=("C02.",), label="key rotation programs (one long-lived key set)",
-              sig=lambda o: "rotation:" + ">".join((s["op"][0] + (",".join(s["set"]) if s["op"] == "publish" else s["by"] + "/" + s["kid"])) for s in o["c"]["steps"]) + ":init=" + ",".join(o["c"]["init"]),
+              sig=lambda o: "rotation:" + ">".join((s["op"][0] + (",".join(s["set"]) if s["op"] == "publish" else s["by"] + "/" + s["kid"])) for s in o["c"]["steps"]) + ":init=" + ",".join(o["c"]["init"]) + (":skip" if o["c"].get("skip") else ""),
               need=lambda o: [f"{e}:{x['v']}:dl{x['dl']}" for e in ("rp", "op") for x in o["o"][e] if x["v"] != "-"],
               required=["rp:accept:dl0", "rp:accept:dl1", "rp:reject:dl0", "rp:reject:dl1", "op:accept:dl1", "op:reject:dl1"])],
         ["keys are real RSA-2048 / P-256 / Ed25519 keys; signatures are computed by the harness with crypto/* directly (not with go-jose), forged "
